@@ -692,6 +692,7 @@ def r40_cbtime(repo, sink):
             def __init__(self, repo):
                 super().__init__(repo)
                 self.pulled = []
+                self.pull_targets = []
 
             def call_hook(self, fv, args, kwargs, node, mod):
                 if isinstance(fv, Closure) and getattr(fv.func, "name", "") == "strip_time":
@@ -703,6 +704,7 @@ def r40_cbtime(repo, sink):
                 if isinstance(fv, Sym) and fv.op == "method" and fv.args[1] in ("to", "to_reduced_units", "m_as"):
                     return Sym("to_units", fv.args[0], *args)
                 if isinstance(fv, Sym) and fv.op == "stubcall" and fv.args[1] == "pull_data":
+                    self.pull_targets.append(args[1] if len(args) > 1 else kwargs.get("target"))
                     self.pulled.append((fv.args[0].obj.fields["name"], args[0]))
                     return Sym("v", fv.args[0].obj.fields["name"], args[0])
                 if isinstance(fv, Sym) and fv.op == "method" and fv.args[1] == "copy":
@@ -788,10 +790,64 @@ def r40_cbtime(repo, sink):
             why = f"request for a later time yields {strip_copy(r2)!r} after pulls {it.pulled[n_pulls_2:]!r}"
         sink.check(why is None, "R40", "weighted-sum", ws,
                    ok="provider pulls every input for the requested time and returns sum(value x own weight), memoised per time", bad=why or "")
+        repo._ws_pull_targets = list(it.pull_targets)
         me2 = Obj(cls=wc, label="WeightedSum")
         me2.fields.update(_in_data=None)
         sink.check(_WS(repo).run(ws, [None, q], self_obj=me2) is None, "R40", "weighted-sum-not-ready", ws,
                    ok="before the initial data is there the provider answers None (no data yet)", bad="provider does not answer None before its inputs were pulled")
+
+
+def r40c_shared_conduit(repo, sink):
+    """Several consumers behind one pull-based component (own rule: it belongs to C20 / C01 only)."""
+    if not repo.has_cls("WeightedSum"):
+        return
+    wc = repo.cls("WeightedSum")
+    ws = repo.resolve(wc, "_get_data", "method")
+    if getattr(repo, "_ws_pull_targets", None) is None:
+        r40_cbtime(repo, Sink_null())
+
+    class _It:
+        pull_targets = getattr(repo, "_ws_pull_targets", None) or []
+    it = _It()
+    # Several consumers behind one pull-based component: the upstream output sees all of their requests under ONE end
+    # point (the component's own input).  If the requester's identity is not handed upstream (A) and the upstream output
+    # refuses a request of that end point that lies before its previous one (B), then a slower consumer that pulled ahead
+    # makes the output discard what a faster consumer still requests: the scheduling guarantee does not extend through
+    # the pull-based component.
+    from .buffer import BufInterp, Q, T, _output_obj, make_order
+    collapsed = all(t is None for t in it.pull_targets)
+    out_cls = repo.cls("Output")
+    gd = repo.resolve(out_cls, "get_data", "method")
+    late, early = Sym("late"), Sym("early")
+    order = make_order(4, {late: ("eq", 3), early: ("eq", 1)})
+    conduit = Obj(label="input-of-the-pull-based-component")
+    o = _output_obj(repo, 4, ["ram"] * 4, {conduit: None})
+    bi = BufInterp(repo, order)
+    refused = None
+    try:
+        bi.run(gd, [late, conduit], self_obj=o)
+        bi.run(gd, [early, conduit], self_obj=o)
+        refused = False
+    except Raised as r:
+        refused = r.name
+    except (Undecided, AnalysisError) as exc:
+        sink.unknown("R40", "pull-based-two-consumers", ws, f"outside vocabulary: {exc}")
+        refused = "unknown"
+    if refused != "unknown":
+        bad = collapsed and refused is not False
+        sink.check(not bad, "R40", "pull-based-two-consumers" + (f":earlier-request-refused-{refused}" if bad else ""), ws,
+                   ok="requests of several consumers behind a pull-based component are served (requester identity forwarded / earlier request served)",
+                   bad=("two time-stepped consumers with different steps read one pull-based output (WeightedSum): the provider pulls its inputs "
+                        "without a target, so the upstream Output sees one end point; after the slower consumer's request (publication 3) the "
+                        f"faster consumer's request (publication 1) is refused with {refused}: the data was discarded although a consumer was "
+                        "still entitled to it"))
+
+
+class Sink_null:
+    """Swallows obligations (used to run a rule only for the facts it leaves on the repo)."""
+
+    def __getattr__(self, _name):
+        return lambda *a, **k: None
 
 
 class _CbRec(_Rec):
